@@ -136,7 +136,7 @@ func runCheck(prop, repo, verifDir, tier, only string, workers int, verbose, noE
 		return 2
 	}
 	var extra []string
-	needStd := prop == "C06" || prop == "C16" || prop == "all"
+	needStd := prop == "C06" || prop == "C16" || prop == "all" || len(cs.Pairs) > 0
 	if needStd {
 		extra = []string{"container/list", "container/ring"}
 	}
@@ -172,12 +172,30 @@ func runCheck(prop, repo, verifDir, tier, only string, workers int, verbose, noE
 			}
 		}
 	}
-	if len(keys) == 0 {
+	var pairs []Pair
+	for _, p := range cs.Pairs {
+		if only != "" {
+			if p.Fork == only {
+				pairs = append(pairs, p)
+			}
+			continue
+		}
+		if prop == "all" || prop == "" || p.Prop == prop || (prop == "C16" && strings.Contains(p.Prop, "C16")) || strings.Contains(","+p.Prop+",", ","+prop+",") {
+			pairs = append(pairs, p)
+		}
+	}
+	if len(keys) == 0 && len(pairs) == 0 {
 		fmt.Printf("ERROR: no functions under contract for %s\n", prop)
 		return 2
 	}
 	var runs []*FuncRun
 	var allObs []*Obligation
+	relAlias := [][2]string{{"lists_Element_T_", "RelElement"}, {"list_Element", "RelElement"}, {"lists_List_T_", "RelList"}, {"list_List", "RelList"}, {"lists_Ring_T_", "RelRing"}, {"ring_Ring", "RelRing"}}
+	for _, p := range pairs {
+		r := v.VerifyPair(p.Fork, p.Orig, relAlias)
+		runs = append(runs, r)
+		allObs = append(allObs, r.Obs...)
+	}
 	for _, k := range keys {
 		c := cs.Funcs[k]
 		fn := v.findFunc(k)
